@@ -45,7 +45,8 @@ def parseAll (ws : List String) : Option (Info × List Ev) := do
   let e := (← kvOf ws "end").splitOn "."
   let flag (p : String) : Nat := (e.findSome? fun f => if f.startsWith p then (f.drop p.length).toString.toNat? else none).getD 0
   let evs ← (ws.filter fun w => !(w.contains '=') && !(w.contains '~')).mapM parseEv
-  some ({ maps := maps, ff := parseIds ((kvOf ws "ff").getD "none"), nr := parseIds ((kvOf ws "nr").getD "none"),
+  some ({ maps := maps, ff := parseIds ((kvOf ws "ff").getD "none"), fo := parseIds ((kvOf ws "fo").getD "none"),
+          nr := parseIds ((kvOf ws "nr").getD "none"),
           hung := flag "hung" > 0, live := flag "live" }, evs)
 
 open GoSup.Planner GoSup.Cluster in
@@ -53,22 +54,28 @@ open GoSup.Planner GoSup.Cluster in
 count after every update -/
 def clusterseq (i : Info) (t : List Ev) : String :=
   if i.hung || knownClash i t then "agree" else
-  let fails (id : String) : Bool := i.ff.contains id || i.nr.contains id
-  let rec go (k : Nat) (cur : Entries) (next : Nat) (maps : List (List (String × Option Nat))) : String :=
+  let static (id : String) : Bool := i.ff.contains id || i.nr.contains id
+  -- every map is delivered twice by the harness; an id whose factory fails once is dropped by the first
+  -- delivery that wants to start it and started by the next one
+  let rec go (k : Nat) (cur : Entries) (next : Nat) (foLeft : List String) (maps : List (List (String × Option Nat))) : String :=
     match maps with
     | [] => "agree"
     | m :: rest =>
       match t.find? (fun e => match e with | .count k' _ _ => k' == k | _ => false) with
       | some (.count _ cnt _) =>
         let des := m.filterMap fun (id, v) => v.map fun c => (id, c)
-        let r := applyUpdate fails cur des next
+        let r1 := applyUpdate (fun id => static id || foLeft.contains id) cur des next
+        let failed := r1.effects.filterMap fun e => match e with | .dropped id => some id | _ => none
+        let foLeft' := foLeft.filter fun id => !failed.contains id
+        let r := applyUpdate (fun id => static id || foLeft'.contains id) r1.entries des r1.next
+        let failed2 := r.effects.filterMap fun e => match e with | .dropped id => some id | _ => none
         let model := sortPairs ((running r.entries).map fun (id, c, _) => (id, c))
         let act := sortPairs ((alive (prefixTo t k)).map fun (id, c, _) => (id, c))
         if model != act then s!"differ@{k}:running {repr act} model {repr model}"
         else if cnt != r.entries.length then s!"differ@{k}:count {cnt} model {r.entries.length}"
-        else go (k + 1) r.entries r.next rest
+        else go (k + 1) r.entries r.next (foLeft'.filter fun id => !failed2.contains id) rest
       | _ => "agree"      -- the run was ended before this push
-  go 0 [] 1 i.maps
+  go 0 [] 1 i.fo i.maps
 
 def handle : List String → Option String
   | "c16holds" :: rest => do let (i, t) ← parseAll rest; some (toString (holds i t))
